@@ -9,6 +9,7 @@ seed) and continues with a seeded random stream drawn from a structured
 mixture (not uniform): see DESIGN.md §1.4.
 """
 import random
+import re
 
 MAXC = 2**127 - 1
 MODES = list(range(8))
@@ -62,6 +63,30 @@ def coef(rng):
 
 def scale(rng):
     return rng.randrange(19)
+
+
+MINC = -2**127
+# coefficients at the width of narrower machine types (casts, fast paths) and at the scaling limits MAXC // 10^d
+WIDTH_BOUNDS = sorted(set(
+    [sg * (2**w + dl) for w in (7, 8, 15, 16, 31, 32, 53, 63, 64, 65, 96, 126) for dl in (-1, 0, 1) for sg in (1, -1)] +
+    [sg * (MAXC // 10**d + dl) for d in range(0, 39) for dl in (-1, 0, 1) for sg in (1, -1) if abs(MAXC // 10**d + dl) <= MAXC] +
+    [sg * (2**w + dl) * 10**k for w in (32, 64) for dl in (0, 1, 9, 10**9) for k in (1, 2, 9, 16, 18) for sg in (1, -1)
+     if (2**w + dl) * 10**k <= MAXC]))
+
+
+MODE_DEPENDENT = re.compile(r"^(dd|di|id|ii)\.(mul|cmul|div|cdiv|divr|mulr|quant)\b|^un\.(round|cround)\b|^fmt\.|^w\.(divr|sdr|mdr)\b|^thr\.|^frm\.")
+
+
+def vary_modes(lines, rng):
+    """operations whose result must not depend on the thread's default rounding mode are run under
+    every mode: half of their lines get a mode other than the one the generator wrote"""
+    out = []
+    for l in lines:
+        t = l.split(" ", 2)
+        if len(t) == 3 and t[1] == "5" and not MODE_DEPENDENT.match(t[0]) and rng.randrange(2):
+            l = "%s %d %s" % (t[0], rng.choice((0, 1, 2, 3, 4, 6, 7)), t[2])
+        out.append(l)
+    return out
 
 
 def intval(rng, ty, allow_min=True):
@@ -176,6 +201,27 @@ def gen_C01(rng, n):
                     c = rng.choice((0, 1, -1, MAXC, -MAXC, MAXC - i * 10**p if abs(MAXC - i * 10**p) <= MAXC else 7))
                     out.append(di(op, ty, 5, c, p, i))
                     out.append(id_(op, ty, 5, i, c, p))
+    # every integer-operand form with the exact result at either end of the i128 range
+    for ty in TYNAMES:
+        lo, hi = ITYPES[ty]
+        for p in (0, 1, 7, 18):
+            for i in (1, -1, 3, -3, 7, lo, hi, lo + 1, hi - 1):
+                if not lo <= i <= hi or (ty == "i128" and i == lo):
+                    continue
+                si = i * 10**p
+                if abs(si) > MAXC:
+                    continue
+                for top in (MAXC, MINC):
+                    for delta in (-1, 0, 1):
+                        T = top + delta
+                        for op in ops:
+                            sub = op in ("sub", "csub")
+                            c1 = T + si if sub else T - si           # d (op) i = T
+                            c2 = si - T if sub else T - si           # i (op) d = T
+                            if abs(c1) <= MAXC:
+                                out.append(di(op, ty, 5, c1, p, i))
+                            if abs(c2) <= MAXC:
+                                out.append(id_(op, ty, 5, i, c2, p))
     while len(out) < n:
         op = rng.choice(ops)
         k = rng.randrange(10)
@@ -246,19 +292,46 @@ def gen_C02(rng, n):
                     sx = rng.choice((1, -1))
                     sy = rng.choice((1, -1))
                     out.append(dd("mul", m, sx * x, px, sy * y, py))
+    # products far beyond the range: quotient by 10^shift still has bits above 2^128 (high limb of the
+    # 256-bit quotient), in particular a high limb that is a multiple of 10^shift
+    for sh in range(1, 19):
+        for K in (1, 2, 3, 7, 9):
+            for a5 in range(0, sh + 1, max(1, sh // 3)):
+                u = 5**a5 * K
+                w_ = 5**(sh - a5) * 2**sh
+                if u < 2**30 and w_ < 2**30:
+                    x = u << 96
+                    y = w_ << 96
+                    for (dx, dy) in ((0, 0), (1, 0), (0, 12345), (-1, 777)):
+                        px = min(18, sh + 9)
+                        py = sh + 18 - px
+                        if 0 <= py <= 18 and abs(x + dx) <= MAXC and abs(y + dy) <= MAXC:
+                            sg = rng.choice((1, -1))
+                            out.append(dd("mul", rng.choice(MODES), sg * (x + dx), px, y + dy, py))
+                            out.append(dd("cmul", rng.choice(MODES), x + dx, px, sg * (y + dy), py))
+                            out.append(dd("mulr", rng.choice(MODES), x + dx, px, y + dy, py, rng.randrange(19)))
+    for sh in (1, 2, 9, 18):
+        for Q in (2**127 - 1, 2**127, 2**128 - 1, 2**128, 2**128 + 1, 2**191 + 5, 2**192, 3 * 2**192 + 2**64, 2**200 + 1):
+            for r in (0, 1, 10**sh // 2, 10**sh - 1):
+                P = Q * 10**sh + r
+                # split P = x1 * x2 with both factors below 2^127 where possible (x2 a power of two times a small odd number)
+                for x2 in (2**100, 2**120, 3 * 2**90, 10**30, 2**126):
+                    if P % x2 == 0 and P // x2 <= MAXC:
+                        out.append("w.i256 %d %s %s %s" % (rng.choice(MODES), hx(P // x2), hx(x2), hx(10**sh)))
+                        out.append("w.i256 %d %s %s %s" % (rng.choice(MODES), hx(-(P // x2)), hx(x2), hx(10**sh)))
     # results at the representability boundary
     for m in MODES:
         for delta in (-1, 0, 1):
             # (MAX+delta) * 10^1 + r  as product with y = 10^k-ish not possible in general; use x = t, y=1*scale trick
             t = (MAXC + delta)
             # x * y with y = 3 (scale 18), x at scale 1: s = 19, sh = 1 -> want x*3 = t*10 + r
-            for r in (0, 4, 5, 6, 9):
-                v = t * 10 + r
-                v -= v % 3
-                x = v // 3
-                if x <= MAXC:
-                    out.append(dd("mul", m, x, 1, 3, 18))
-                    out.append(dd("mul", m, -x, 1, 3, 18))
+            for y in (30, 70, 130):
+                for dl in (0, 1, 2, 3):
+                    x = (t * 10) // y + dl
+                    if x <= MAXC:
+                        out.append(dd("mul", m, x, 1, y, 18))
+                        out.append(dd("mul", m, -x, 1, y, 18))
+                        out.append(dd("cmul", m, -x, 1, y, 18))
     # exact branch (s <= 18) at the i128 boundary; checked_mul never rounds
     for (p, q) in ((0, 0), (9, 9), (18, 0), (10, 9), (18, 18)):
         for t in (MAXC, MAXC + 1, 2**127, 2**127 + 1):
@@ -579,6 +652,18 @@ def gen_C08(rng, n):
                 for op in ("pcmp", "eq", "lt", "min", "max", "ge"):
                     out.append(dd(op, 5, a, p, b, q))
                     out.append(dd(op, 5, b, q, a, p))
+    # the largest coefficients that can still be scaled by 10^d (and their neighbours), on either side
+    for d in range(1, 19):
+        lim = MAXC // 10**d
+        for p in (0, 18 - d):
+            for sg in (1, -1):
+                for dl in (-1, 0, 1):
+                    a = sg * (lim + dl)
+                    for b in (a * 10**d, a * 10**d + 1, a * 10**d - 1, sg * MAXC, -sg * MAXC, sg * (lim * 10**d), 0):
+                        if abs(b) <= MAXC:
+                            for op in ("eq", "pcmp", "lt", "min"):
+                                out.append(dd(op, 5, a, p, b, p + d))
+                                out.append(dd(op, 5, b, p + d, a, p))
     # equal values in different representations
     for k in range(19):
         for j in range(19 - k):
@@ -586,6 +671,19 @@ def gen_C08(rng, n):
             if abs(v * 10 ** (k + j)) <= MAXC:
                 for op in ("eq", "ne", "pcmp", "cmp", "le", "min", "max"):
                     out.append(dd(op, 5, v * 10**k, k, v * 10 ** (k + j), k + j))
+    for d in range(1, 19):
+        lim = MAXC // 10**d
+        for ty in ("i128", "i64", "u64"):
+            lo, hi = ITYPES[ty]
+            for sg in (1, -1):
+                for dl in (-1, 0, 1):
+                    i = sg * (lim + dl)
+                    if lo <= i <= hi:
+                        for c in (i * 10**d, i * 10**d + 1, i * 10**d - 1, sg * MAXC):
+                            if abs(c) <= MAXC:
+                                for op in ("eq", "lt", "pcmp"):
+                                    out.append(di(op, ty, 5, c, d, i))
+                                    out.append(id_(op, ty, 5, i, c, d))
     for ty in TYNAMES:
         lo, hi = ITYPES[ty]
         for i in (lo, hi, 0, 1, -1 if lo < 0 else 2, lo + 1, hi - 1):
@@ -643,6 +741,22 @@ def gen_C10(rng, n):
                     for x in (MAXC, MAXC // 30, MAXC // 7, 10**38, 2**120 + 12345):
                         for y in (3, 7, MAXC // 500, MAXC // 11, MAXC, 2**126 + 1, 10**18 + 3, 999999):
                             out.append(dd(op, 5, sx * x, p, sy * y, q))
+    # digit-by-digit fall-back (dividend cannot be up-scaled): exact multiples and remainders reached only in the
+    # last step, divisor coefficients with trailing zeros
+    for op in ops:
+        for (p, q) in ((0, 1), (0, 2), (0, 3), (2, 4), (0, 18), (15, 18)):
+            k = q - p
+            for yv in (2, 7, 20, 700, 125, 1, 99, 10**6 + 1):
+                yc = yv * 10**k if rng.randrange(2) else yv          # value yv (trailing zeros) or yv / 10^k
+                if yc > MAXC:
+                    continue
+                for base in (10**38, MAXC - MAXC % yv, 11 * 10**37, 2**126):
+                    for r in (0, 1, yv - 1, yv // 2):
+                        x = base - base % yv + r
+                        if 0 < x <= MAXC and x * 10**k > MAXC:
+                            for sx in (1, -1):
+                                out.append(dd(op, 5, sx * x, p, yc, q))
+                                out.append(dd(op, 5, sx * x, p, -yc, q))
     # divisor scaled beyond i128
     for op in ops:
         for (p, q) in ((3, 0), (18, 0), (18, 17)):
@@ -691,6 +805,18 @@ def gen_C14(rng, n):
                 if abs(c + 1) <= MAXC and p > 0:
                     out.append("un.toint.%s 5 %s %d" % (ty, hx(c + 1), p))
                     out.append("un.toint.%s 5 %s %d" % (ty, hx(c - 5 * 10 ** (p - 1)), p))
+    # coefficients at machine-word widths with a non-zero scale: integral (c = v * 10^p) and not
+    for c in WIDTH_BOUNDS:
+        for p in (0, 1, 2, 9, 18):
+            for ty in ("i128", "i64", "u64", "i32", "u8"):
+                out.append("un.toint.%s 5 %s %d" % (ty, hx(c), p))
+    for w in (31, 32, 63, 64):
+        for dl in range(-3, 4):
+            for p in (1, 3, 18):
+                for v in (2**w + dl, -(2**w + dl), (2**w + dl) // 10**p * 10**p, -((2**w + dl) // 10**p * 10**p), (2**w) // 10**p * 10**p + dl * 10**p):
+                    if abs(v) <= MAXC:
+                        for ty in ALL_TO:
+                            out.append("un.toint.%s 5 %s %d" % (ty, hx(v), p))
     for ty in TYNAMES:
         lo, hi = ITYPES[ty]
         for v in (lo, hi, 0, 1, lo + 1, hi - 1, 2**31, 2**31 - 1, 2**63, 2**32 - 1):
@@ -739,6 +865,18 @@ def gen_C15(rng, n):
         for c in (0, 1, -1, 10**p, -(10**p), 10**p + 1, 10**p - 1, 5 * 10 ** max(0, p - 1), -5 * 10 ** max(0, p - 1), MAXC, -MAXC, 15, -15, -(10**p) - 1):
             for op in UNOPS15:
                 out.append(un(op, 5, c, p))
+    for c in WIDTH_BOUNDS:
+        out.append("w.mag 5 %s" % hx(c)) if c else None
+        for p in (0, 3, 18):
+            for op in UNOPS15:
+                out.append(un(op, 5, c, p))
+    # every digit length with leading digits around 2^32 and 2^64 (casts inside the cascade)
+    for k in range(0, 30):
+        for lead in (2**32 - 1, 2**32, 2**32 + 1, 5 * 10**9, 2**33, 9999999999, 2**64 - 1, 2**64, 2**64 + 1, 10**19 - 1, 4294967296 + 10**9):
+            v = lead * 10**k + rng.randrange(10**k) if k else lead
+            if 0 < v <= MAXC:
+                out.append("w.mag 5 %s" % hx(v))
+                out.append(un("mag", 5, rng.choice((1, -1)) * v, rng.randrange(19)))
     # the 17-bit kernel itself (hook): every threshold neighbourhood, then a stride over 1..99999
     for t in (1, 9, 10, 11, 99, 100, 101, 999, 1000, 1001, 9999, 10000, 10001, 99998, 99999):
         out.append("w.lt5 5 %x" % t)
@@ -848,6 +986,18 @@ def gen_C16(rng, n):
             den = min(hi * 2**64 + lo, MAXC)
             a = rng.getrandbits(rng.randrange(100, 128))
             out.append("w.sdmf %d %s %x %s" % (m, hx(rng.choice((1, -1)) * a), rng.randrange(10, 39), hx(den)))
+        elif k < 9:
+            den = rng.choice(dens) if rng.randrange(3) == 0 else (rng.getrandbits(rng.randrange(1, 129)) or 1)
+            xh = rng.getrandbits(rng.randrange(0, 129)); xl = rng.getrandbits(128)
+            kind = rng.randrange(4)
+            if kind == 0:
+                out.append("w.mulw 5 %x %x" % (rng.getrandbits(rng.randrange(1, 129)), rng.getrandbits(rng.randrange(1, 129))))
+            elif kind == 1 and den < 2**64:
+                out.append("w.idiv64 5 %x %x %x" % (xh, xl, den))
+            elif kind == 2 and den >= 2**64:
+                out.append("w.idivs 5 %x %x %x" % (xh % den, xl, den))
+            else:
+                out.append("w.idiv 5 %x %x %x" % (xh, xl, den))
         else:
             x = rng.choice((1, -1)) * rng.getrandbits(rng.randrange(64, 127))
             y = rng.choice((1, -1)) * (rng.getrandbits(rng.randrange(64, 127)) | 1)
@@ -968,6 +1118,11 @@ def gen_C07(rng, n):
                   15, -15, 10**38, 123456789012345678901234567890123456789 % (MAXC + 1)):
             out.append("str.tostring 5 %s %d" % (hx(clamp(c)), p))
             out.append("str.roundtrip 5 %s %d" % (hx(clamp(c)), p))
+    # coefficients at the width of narrower machine types (fast paths, casts) and at the scaling limits
+    for c in WIDTH_BOUNDS:
+        for p in (0, 1, 6, 18):
+            out.append("str.tostring 5 %s %d" % (hx(c), p))
+            out.append("str.roundtrip 5 %s %d" % (hx(c), p))
     while len(out) < n:
         p = scale(rng)
         k = rng.randrange(4)
@@ -996,6 +1151,18 @@ def gen_C09(rng, n):
                     for p in (1, 9, 18):
                         out.append("fl.ratio 5 %s %d" % (hx(c), p))
                         out.append("fl.ratio 5 %s %d" % (hx(-c), p))
+    # odd part of the coefficient just above a machine-word width (narrowing fast paths), all residues mod 5 and 2
+    for w in (31, 32, 63, 64, 65, 96):
+        for dl in range(0, 21):
+            for j in (0, 1, 5):
+                c = (2**w + dl) * 2**j
+                if c <= MAXC:
+                    for p in (1, 2, 3, 18):
+                        out.append("fl.ratio 5 %s %d" % (hx(rng.choice((1, -1)) * c), p))
+            v = 2**w + dl
+            for (k, j) in ((0, 1), (1, 2), (2, 0), (0, 3)):
+                if v * 10 ** (k + j) <= MAXC:
+                    out.append("fl.hasheq 5 %s %d %s %d" % (hx(v * 10**k), k + 2, hx(v * 10 ** (k + j)), k + j + 2))
     # equal values across representations hash alike
     for k in range(19):
         for j in range(19 - k):
@@ -1045,6 +1212,9 @@ def gen_C11(rng, n):
             out.append(fmt_line(rng, idx, m, w, p, c, f))
         for c in (0, 7, -7, 123456, -123456, MAXC, -MAXC):
             out.append(fmt_line(rng, idx, 5, rng.choice((None, 0, 3, 9, 45, 60)), None, c, 0, as_int=True))
+    for c in WIDTH_BOUNDS:
+        for f in (0, 1, 9, 18):
+            out.append(fmt_line(rng, rng.randrange(len(COMBOS)), rng.choice(MODES), rng.choice((None, 0, 30)), rng.choice((None, f, 18, 0, max(0, f - 1))), c, f))
     # every precision 0..40 x every mode, plain flags
     for p in list(range(41)) + [None]:
         for m in MODES:
@@ -1119,6 +1289,33 @@ def gen_C12(rng, n):
                 if c <= MAXC:
                     out.append("fl.%s 5 %s %d" % ("f64" if is64 else "f32", hx(c), k))
                     out.append("fl.%s 5 %s %d" % ("f64" if is64 else "f32", hx(-c), k))
+    # large coefficients: the divisor is shifted left (beyond 64 bits), quotient = significand | guard bits,
+    # remainder classes incl. multiples of 2^32 / 2^64 (a narrowed sticky test would lose them)
+    for is64 in (True, False):
+        fb = 52 if is64 else 23
+        A = fb + 3
+        for nn in (1, 2, 9, 18):
+            den = 10**nn
+            lb = den.bit_length() - 1
+            for la in (lb + A + 2, lb + A + 9, 100, 119, 123, 126):
+                ds = la - lb - A
+                if ds <= 0 or la > 126:
+                    continue
+                den_s = den << ds
+                for G in (3, 2):
+                    for sig_lsb in (0, 1):
+                        signif = (1 << fb) | (rng.getrandbits(fb) & ~1) | sig_lsb
+                        for g in (1 << (G - 1), (1 << (G - 1)) - 1, (1 << (G - 1)) + 1, 0, (1 << G) - 1):
+                            quot = (signif << G) | g
+                            for rem in (0, 1, 2**32, 2**64, 3 * 2**64, 2**64 + 1, den_s - 1, den_s // 2, (den_s >> 64) << 64):
+                                if not 0 <= rem < den_s:
+                                    continue
+                                num = quot * den_s + rem
+                                if num <= MAXC and num.bit_length() - 1 == la:
+                                    out.append("fl.%s 5 %s %d" % ("f64" if is64 else "f32", hx(rng.choice((1, -1)) * num), nn))
+    for c in WIDTH_BOUNDS:
+        for p in (0, 1, 9, 18):
+            both(c, p)
     while len(out) < n:
         p = scale(rng)
         k = rng.randrange(4)
@@ -1178,18 +1375,6 @@ def gen_C13(rng, n):
         elif k == 4:
             x = rng.randrange(1, 10**rng.randrange(1, 19)) / 10.0**rng.randrange(0, 25)
             f64(bits64(x)); f32(bits32(x))
-        elif k < 9:
-            den = rng.choice(dens) if rng.randrange(3) == 0 else (rng.getrandbits(rng.randrange(1, 129)) or 1)
-            xh = rng.getrandbits(rng.randrange(0, 129)); xl = rng.getrandbits(128)
-            kind = rng.randrange(4)
-            if kind == 0:
-                out.append("w.mulw 5 %x %x" % (rng.getrandbits(rng.randrange(1, 129)), rng.getrandbits(rng.randrange(1, 129))))
-            elif kind == 1 and den < 2**64:
-                out.append("w.idiv64 5 %x %x %x" % (xh, xl, den))
-            elif kind == 2 and den >= 2**64:
-                out.append("w.idivs 5 %x %x %x" % (xh % den, xl, den))
-            else:
-                out.append("w.idiv 5 %x %x %x" % (xh, xl, den))
         else:
             x = (rng.randrange(1, 2**40) | 1) / 2.0**rng.randrange(1, 30)
             f64(bits64(x))
@@ -1233,6 +1418,20 @@ def gen_C17(rng, n):
                         continue
                     out.append("frm.di_%s.%s 5 %s %d %s 0" % (op, ty, hx(c), p, hx(i)))
                     out.append("frm.id_%s.%s 5 %s %s %d 0" % (op, ty, hx(i), hx(c), p))
+    # largest integers / coefficients that can still be scaled by 10^n, and their neighbours
+    for d in range(1, 19):
+        lim = MAXC // 10**d
+        for ty in ("i128", "i64", "u64"):
+            lo, hi = ITYPES[ty]
+            for sg in (1, -1):
+                for dl in (-1, 0, 1):
+                    i = sg * (lim + dl)
+                    if lo <= i <= hi:
+                        for c in (i * 10**d, i * 10**d + 1, sg * MAXC):
+                            if abs(c) <= MAXC:
+                                for op in ("eq", "lt", "add", "sub", "crem", "cmul"):
+                                    out.append("frm.di_%s.%s 5 %s %d %s 0" % (op, ty, hx(c), d, hx(i)))
+                                    out.append("frm.id_%s.%s 5 %s %s %d 0" % (op, ty, hx(i), hx(c), d))
     # K1: integer forms of div_rounded with n > 18 disagree with the Decimal form
     out.append("frm.di_divr.i32 5 1 0 3 19")
     # the integer-operand bodies against the model (same generators as C01-C04, C08, C10)
@@ -1306,6 +1505,20 @@ def gen_C20(rng, n):
         out.append(un("round", 5, c, 0, -3)); out.append(un("neg", 5, c, 0)); out.append(un("abs", 5, -abs(c), 0))
         out.append(di("add", "i128", 5, c, 2, MAXC // 5)); out.append(id_("sub", "i128", 5, MAXC // 5, c, 2))
         out.append(un("floor", 5, -abs(c), 18)); out.append(un("ceil", 5, abs(c), 18))
+    big = 153127065114422308558518573344295695155          # 10 * big = 9 * MAXC + 7
+    for m in MODES:
+        for sg in (1, -1):
+            out.append(dd("div", m, sg * big, 17, 9, 0)); out.append(dd("cdiv", m, sg * big, 17, 9, 0))
+            out.append(dd("divr", m, sg * big, 0, 9, 1, 0)); out.append(dd("divr", m, sg * big, 17, 9, 0, 18))
+            out.append("w.sdr %d %s %x %s" % (m, hx(sg * big), 1, hx(9)))
+            # products: MAXC * 10 + r = x * y with the rounding digit cut off
+            for y in (30, 70, 130):
+                for dl in (0, 1, 2, 3):
+                    x = (MAXC * 10) // y + dl                  # x * y / 10 = MAXC + fraction just below / above
+                    if x <= MAXC:
+                        out.append(dd("mul", m, sg * x, 1, y, 18)); out.append(dd("cmul", m, sg * x, 1, y, 18))
+                        out.append(dd("mulr", m, sg * x, 1, y, 18, 18))
+                        out.append("w.mdr %d %s %s %x" % (m, hx(sg * x), hx(y), 1))
     return out
 
 
@@ -1354,6 +1567,69 @@ def thin(ls, n):
     return [ls[int(i * step)] for i in range(n)]
 
 
+def gen_K(rng, n):
+    """256-bit division kernels at the boundaries of the quotient-digit correction loops (Knuth D3 as adapted
+    in u256_idiv_u128_special): estimate one too large with the corrected remainder estimate exactly 2^64,
+    products exactly equal in the test, for the high and the low quotient digit, normalised and shifted divisors;
+    plus the 256/64 division with a non-zero high quotient limb and the 128x128 product"""
+    out = []
+    B = 2**64
+    U = 2**128 - 1
+    def emit(xnorm, y, s):
+        # divide both by 2^s when possible (the kernel normalises again)
+        if xnorm % 2**s == 0 and y % 2**s == 0:
+            x, yy = xnorm >> s, y >> s
+            xh, xl = x >> 128, x & U
+            if 0 < yy <= U and xh < yy:
+                out.append("w.idivs 5 %x %x %x" % (xh, xl, yy))
+                out.append("w.idiv 5 %x %x %x" % (xh, xl, yy))
+                if yy <= MAXC:
+                    # the same division through the public signed kernel when the dividend is a product of two i128
+                    for x2 in (2**64, 2**100, 2**126):
+                        if x % x2 == 0 and x // x2 <= MAXC:
+                            out.append("w.i256 %d %s %s %s" % (rng.choice(MODES), hx(x // x2), hx(x2), hx(yy)))
+                            break
+    for k in (1, 2, 3, 2**20, 2**62, 2**63 - 1):
+        yn1 = 2**63 + k
+        rh = B - yn1                               # remainder estimate that becomes exactly 2^64 after one correction
+        for s in (0, 1, 7, 63):
+            for yn0 in (B - 2**s, B - 2**s * 3 if B - 2**s * 3 > 0 else B - 2**s, (2**63 // 2**s) * 2**s):
+                y = yn1 * B + yn0
+                for qd in (B - 1, rh + 2, rh + 2**32, (rh + B) // 2):
+                    if not rh < qd < B:
+                        continue
+                    for xlow in (0, 2**s, (B - 1) // 2**s * 2**s):
+                        # low digit q0: t = qd*yn1 + rh is the partial remainder after the high digit q1
+                        t = qd * yn1 + rh
+                        for q1 in (0, 1, 5, B - 1):
+                            emit((q1 * y + t) * B + xlow, y, s)
+                        # high digit q1: xn32 = qd*yn1 + rh
+                        emit((qd * yn1 + rh) * B * B + xlow * B + xlow, y, s)
+                # equality in the correction test: qd*yn0 = rh'*2^64 + x_next
+                for qd in (B - 1, 2**63, 12345678901234567, B - 2**32):
+                    P = qd * yn0
+                    rh2, xn = P >> 64, P & (B - 1)
+                    if rh2 < yn1 and xn % 2**s == 0:
+                        emit((qd * yn1 + rh2) * B * B + xn * B, y, s)              # high digit, no correction needed
+                        emit((3 * y + qd * yn1 + rh2) * B + xn, y, s) if qd * yn1 + rh2 < y else None   # low digit
+                        if xn >= 2**s:
+                            emit((qd * yn1 + rh2) * B * B + (xn - 2**s) * B, y, s)  # one below: correction needed
+    # 256 / 64 with a non-zero high quotient limb, high limb a multiple of the divisor, tiny next limb
+    for y in (10, 10**9, 10**18, 10**19, 3, 2**63, B - 1, 7):
+        if y >= B:
+            continue
+        for th in (y, 2 * y, 7 * y, y + 1, y - 1, B - 1):
+            for mid in (0, 1, y - 1, B - 1):
+                for xl in (0, 1, U, 2**127):
+                    xh = (th % B) * B + (mid % B)
+                    out.append("w.idiv64 5 %x %x %x" % (xh, xl, y))
+                    out.append("w.idiv 5 %x %x %x" % (xh, xl, y))
+    for x in (U, 2**64, B - 1, 2**127, 2**127 + 1, 10**38, 0xffffffff00000000ffffffff00000000):
+        for y in (U, 2**64 + 1, B - 1, 2**127, 10**38, 3):
+            out.append("w.mulw 5 %x %x" % (x, y))
+    return thin(list(dict.fromkeys(out)), n) if len(out) > n else list(dict.fromkeys(out))
+
+
 def gen_F07(rng, n):
     """feature serde-as-str: serialize = to_string, deserialize . serialize = id, deserialize(s) = from_str(s)"""
     a = []
@@ -1397,7 +1673,7 @@ def gen_F15(rng, n):
 
 
 GENS = {
-    "F07": gen_F07, "F08": gen_F08, "F15": gen_F15,
+    "K": gen_K, "F07": gen_F07, "F08": gen_F08, "F15": gen_F15,
     "C01": gen_C01, "C02": gen_C02, "C03": gen_C03, "C04": gen_C04, "C05": gen_C05,
     "C08": gen_C08, "C10": gen_C10, "C14": gen_C14, "C15": gen_C15, "C16": gen_C16,
     "C06": gen_C06, "C07": gen_C07, "C09": gen_C09, "C11": gen_C11, "C12": gen_C12, "C13": gen_C13,
